@@ -1020,6 +1020,18 @@ impl PeerConnection {
         self.inner.ice_transport.clone()
     }
 
+    /// Verification hook (C10): read-only views of what the negotiation derived, so a live pair can
+    /// be compared with the model's prediction (DTLS role, primary RTP transport; see also verif_dtls_transport).
+    #[cfg(rustrtc_verif)]
+    pub fn verif_dtls_role(&self) -> Option<bool> {
+        *self.inner.dtls_role.borrow()
+    }
+
+    #[cfg(rustrtc_verif)]
+    pub fn verif_rtp_transport(&self) -> Option<Arc<RtpTransport>> {
+        self.inner.rtp_transport.lock().clone()
+    }
+
     /// Verification hook: the connection's current DTLS transport, so a test
     /// peer can hand application data (e.g. a hand-built SCTP ABORT) to the
     /// real record layer and watch the DTLS state of the endpoint under test.
@@ -3937,7 +3949,7 @@ async fn run_rtp_direct_loop(
             }
             crate::transports::ice::IceTransportState::Closed => IceConnectionState::Closed,
         };
-        let _ = ice_connection_state_tx.send(pc_ice_state);
+        report_ice_state(&ice_connection_state_tx, pc_ice_state);
 
         match ice_state {
             crate::transports::ice::IceTransportState::Connected
@@ -3957,7 +3969,7 @@ async fn run_rtp_direct_loop(
                             false
                         }
                     });
-                    let _ = inner.peer_state.send(PeerConnectionState::Failed);
+                    report_peer_state(&inner, PeerConnectionState::Failed);
                 }
                 return;
             }
@@ -3971,7 +3983,7 @@ async fn run_rtp_direct_loop(
                             false
                         }
                     });
-                    let _ = inner.peer_state.send(PeerConnectionState::Closed);
+                    report_peer_state(&inner, PeerConnectionState::Closed);
                 }
                 return;
             }
@@ -4007,7 +4019,7 @@ async fn run_ice_dtls_loop(
             }
             crate::transports::ice::IceTransportState::Closed => IceConnectionState::Closed,
         };
-        let _ = ice_connection_state_tx.send(pc_ice_state);
+        report_ice_state(&ice_connection_state_tx, pc_ice_state);
         match ice_state {
             crate::transports::ice::IceTransportState::Connected
             | crate::transports::ice::IceTransportState::Completed => {
@@ -4114,7 +4126,7 @@ async fn run_ice_dtls_loop(
                             false
                         }
                     });
-                    let _ = inner.peer_state.send(PeerConnectionState::Failed);
+                    report_peer_state(&inner, PeerConnectionState::Failed);
                 }
                 return;
             }
@@ -4128,7 +4140,7 @@ async fn run_ice_dtls_loop(
                             false
                         }
                     });
-                    let _ = inner.peer_state.send(PeerConnectionState::Closed);
+                    report_peer_state(&inner, PeerConnectionState::Closed);
                 }
                 return;
             }
@@ -4198,11 +4210,11 @@ async fn handle_connected_state_no_dtls(
                         false
                     }
                 });
-                let _ = inner.peer_state.send(PeerConnectionState::Failed);
+                report_peer_state(&inner, PeerConnectionState::Failed);
                 return false;
             }
             Ok(mut rtcp_loop) => {
-                let _ = inner.peer_state.send(PeerConnectionState::Connected);
+                report_peer_state(&inner, PeerConnectionState::Connected);
                 let grace = inner.config.ice_disconnect_grace;
                 drop(inner);
 
@@ -4226,7 +4238,7 @@ async fn handle_connected_state_no_dtls(
                             match new_state {
                                 crate::transports::ice::IceTransportState::Disconnected => {
                                     if let Some(inner) = inner_weak.upgrade() {
-                                        let _ = inner.peer_state.send(PeerConnectionState::Disconnected);
+                                        report_peer_state(&inner, PeerConnectionState::Disconnected);
                                     }
                                     let epoch = disconnect_epoch;
                                     let tx = grace_tx.clone();
@@ -4243,7 +4255,7 @@ async fn handle_connected_state_no_dtls(
                                 | crate::transports::ice::IceTransportState::Completed => {
                                     disconnect_epoch += 1;
                                     if let Some(inner) = inner_weak.upgrade() {
-                                        let _ = inner.peer_state.send(PeerConnectionState::Connected);
+                                        report_peer_state(&inner, PeerConnectionState::Connected);
                                     }
                                     debug!("ICE recovered (epoch {}), grace cancelled", disconnect_epoch);
                                 }
@@ -4261,7 +4273,7 @@ async fn handle_connected_state_no_dtls(
                                             false
                                         }
                                     });
-                                    let _ = inner.peer_state.send(PeerConnectionState::Disconnected);
+                                    report_peer_state(&inner, PeerConnectionState::Disconnected);
                                     if let Some(sctp) = inner.sctp_transport.lock().as_ref() {
                                         sctp.close();
                                     }
@@ -4304,11 +4316,11 @@ async fn handle_connected_state(
                                 false
                             }
                         });
-                        let _ = inner.peer_state.send(PeerConnectionState::Failed);
+                        report_peer_state(&inner, PeerConnectionState::Failed);
                         return false;
                     }
                     Ok(mut rtcp_loop) => {
-                        let _ = inner.peer_state.send(PeerConnectionState::Connected);
+                        report_peer_state(&inner, PeerConnectionState::Connected);
 
                         let dtls_state_rx = {
                             let dtls_guard = inner.dtls_transport.lock();
@@ -4333,8 +4345,8 @@ async fn handle_connected_state(
                                         }
                                         match new_state {
                                             crate::transports::ice::IceTransportState::Disconnected => {
-                                                let _ = inner.peer_state.send(PeerConnectionState::Disconnected);
-                                                let _ = ice_connection_state_tx.send(IceConnectionState::Disconnected);
+                                                report_peer_state(&inner, PeerConnectionState::Disconnected);
+                                                report_ice_state(ice_connection_state_tx, IceConnectionState::Disconnected);
                                                 let epoch = disconnect_epoch;
                                                 let tx = grace_tx.clone();
                                                 tokio::spawn(
@@ -4349,8 +4361,8 @@ async fn handle_connected_state(
                                             crate::transports::ice::IceTransportState::Connected
                                             | crate::transports::ice::IceTransportState::Completed => {
                                                 disconnect_epoch += 1;
-                                                let _ = inner.peer_state.send(PeerConnectionState::Connected);
-                                                let _ = ice_connection_state_tx.send(IceConnectionState::Connected);
+                                                report_peer_state(&inner, PeerConnectionState::Connected);
+                                                report_ice_state(ice_connection_state_tx, IceConnectionState::Connected);
                                                 debug!("ICE recovered (epoch {}), grace cancelled", disconnect_epoch);
                                             }
                                             _ => {}
@@ -4369,8 +4381,8 @@ async fn handle_connected_state(
                                                 let _ = inner.disconnect_reason.send_if_modified(|cur| {
                                                     if cur.is_none() { *cur = Some(reason); true } else { false }
                                                 });
-                                                let _ = inner.peer_state.send(PeerConnectionState::Disconnected);
-                                                let _ = ice_connection_state_tx.send(IceConnectionState::Disconnected);
+                                                report_peer_state(&inner, PeerConnectionState::Disconnected);
+                                                report_ice_state(ice_connection_state_tx, IceConnectionState::Disconnected);
                                                 return false;
                                             }
                                         } else {
@@ -4387,8 +4399,8 @@ async fn handle_connected_state(
                                                     false
                                                 }
                                             });
-                                            let _ = inner.peer_state.send(PeerConnectionState::Disconnected);
-                                            let _ = ice_connection_state_tx.send(IceConnectionState::Disconnected);
+                                            report_peer_state(&inner, PeerConnectionState::Disconnected);
+                                            report_ice_state(ice_connection_state_tx, IceConnectionState::Disconnected);
                                             if let Some(sctp) = inner.sctp_transport.lock().as_ref() {
                                                 sctp.close();
                                             }
@@ -4416,8 +4428,8 @@ async fn handle_connected_state(
                                         }
                                         match new_state {
                                             crate::transports::ice::IceTransportState::Disconnected => {
-                                                let _ = inner.peer_state.send(PeerConnectionState::Disconnected);
-                                                let _ = ice_connection_state_tx.send(IceConnectionState::Disconnected);
+                                                report_peer_state(&inner, PeerConnectionState::Disconnected);
+                                                report_ice_state(ice_connection_state_tx, IceConnectionState::Disconnected);
                                                 let epoch = disconnect_epoch;
                                                 let tx = grace_tx.clone();
                                                 tokio::spawn(
@@ -4432,8 +4444,8 @@ async fn handle_connected_state(
                                             crate::transports::ice::IceTransportState::Connected
                                             | crate::transports::ice::IceTransportState::Completed => {
                                                 disconnect_epoch += 1;
-                                                let _ = inner.peer_state.send(PeerConnectionState::Connected);
-                                                let _ = ice_connection_state_tx.send(IceConnectionState::Connected);
+                                                report_peer_state(&inner, PeerConnectionState::Connected);
+                                                report_ice_state(ice_connection_state_tx, IceConnectionState::Connected);
                                                 debug!("ICE recovered (epoch {}), grace cancelled", disconnect_epoch);
                                             }
                                             _ => {}
@@ -4449,8 +4461,8 @@ async fn handle_connected_state(
                                                     false
                                                 }
                                             });
-                                            let _ = inner.peer_state.send(PeerConnectionState::Disconnected);
-                                            let _ = ice_connection_state_tx.send(IceConnectionState::Disconnected);
+                                            report_peer_state(&inner, PeerConnectionState::Disconnected);
+                                            report_ice_state(ice_connection_state_tx, IceConnectionState::Disconnected);
                                             if let Some(sctp) = inner.sctp_transport.lock().as_ref() {
                                                 sctp.close();
                                             }
@@ -4485,6 +4497,34 @@ async fn handle_connected_state(
             }
         }
     }
+}
+
+/// Peer-state write from the connection-state task. Once the application has
+/// closed the connection (`close()` / `Drop`) — or the ICE transport was
+/// closed — the reported state stays `Closed`, whatever the still-running
+/// loops observe afterwards (a DTLS handshake that ends, a close_notify that
+/// was already queued, a grace timer that fires).
+fn report_peer_state(inner: &PeerConnectionInner, state: PeerConnectionState) {
+    inner.peer_state.send_if_modified(|cur| {
+        if *cur == PeerConnectionState::Closed {
+            false
+        } else {
+            *cur = state;
+            true
+        }
+    });
+}
+
+/// Same rule for the ICE connection state published by the state task.
+fn report_ice_state(tx: &watch::Sender<IceConnectionState>, state: IceConnectionState) {
+    tx.send_if_modified(|cur| {
+        if *cur == IceConnectionState::Closed {
+            false
+        } else {
+            *cur = state;
+            true
+        }
+    });
 }
 
 /// Hard, non-recoverable ICE states. Unlike `Disconnected` (which is transient
